@@ -117,6 +117,29 @@ impl<'a, 'b> Ctx<'a, 'b> {
     /// The direct C12 monitor, written from the property text.
     fn monitor(&mut self, before: &Snapshot, after: &Snapshot, what: &str, allowed_new: Option<K32>, offered: &[usize]) {
         let local_id = self.idents[self.local].id;
+        // C16 (the service was configured with ip_limit, whatever its IP mode): at no time more than 10
+        // nodes of one /24 in the table, nor more than 2 in a bucket
+        if self.ip_limit {
+            let mut per_table: std::collections::BTreeMap<[u8; 3], usize> = Default::default();
+            let mut per_bucket: std::collections::BTreeMap<(u64, [u8; 3]), usize> = Default::default();
+            for (k, e, pending) in after {
+                if *pending {
+                    continue;
+                }
+                if let Some(ip) = e.ip4() {
+                    let o = ip.octets();
+                    let sub = [o[0], o[1], o[2]];
+                    *per_table.entry(sub).or_insert(0) += 1;
+                    *per_bucket.entry((log2dist(&local_id, k), sub)).or_insert(0) += 1;
+                }
+            }
+            if let Some((sub, n)) = per_table.iter().find(|(_, n)| **n > 10) {
+                self.failures.push(("C16".into(), format!("with IP limiting configured the table holds {} nodes of {}.{}.{}.0/24 (after {})", n, sub[0], sub[1], sub[2], what.split(' ').next().unwrap_or("")).chars().map(|c| if c.is_ascii_digit() { '#' } else { c }).collect()));
+            }
+            if let Some(((_, sub), n)) = per_bucket.iter().find(|(_, n)| **n > 2) {
+                self.failures.push(("C16".into(), format!("with IP limiting configured a bucket holds {} nodes of {}.{}.{}.0/24 (after {})", n, sub[0], sub[1], sub[2], what.split(' ').next().unwrap_or("")).chars().map(|c| if c.is_ascii_digit() { '#' } else { c }).collect()));
+            }
+        }
         let kind = what.split(' ').next().unwrap_or("").to_string();
         for (k, e, _) in after {
             // every entry is checked in the step in which it appears or changes
@@ -188,7 +211,7 @@ pub fn run_case(idents: &[Ident], idx: u64, rng: &mut Rng, thorough: bool, hist:
         intern_begin();
         let mode_n = rng.below(3);
         let filter_n = *rng.pick(&[0u64, 0, 1, 2, 2, 3, 3]);
-        let ip_limit = rng.chance(1, 6);
+        let ip_limit = rng.chance(1, 6) || FORCE_IP_LIMIT.load(std::sync::atomic::Ordering::SeqCst);
         let mode = [IpMode::Ip4, IpMode::Ip6, IpMode::DualStack][mode_n as usize];
         let mut recs = Recs::new(idents);
         // the actors of this case
